@@ -15,10 +15,13 @@ def sh(cmd, cwd=None, timeout=1500):
 
 
 def restore():
+    """back to the committed state of the scratch worktree; the repairs are applied from fixes/*.diff only when the scratch is the
+    pinned tree (they are commits of /repo now)"""
     sh("git checkout -- .", cwd=REPO)
-    for f in sorted((ROOT / "fixes").glob("F*.diff")):
-        rc, out = sh("git apply %s" % f, cwd=REPO)
-        assert rc == 0, (f, out)
+    if "closing: bool" not in (REPO / C).read_text():
+        for f in sorted((ROOT / "fixes").glob("F*.diff")):
+            rc, out = sh("git apply %s" % f, cwd=REPO)
+            assert rc == 0, (f, out)
 
 
 def sub(path, old, new):
